@@ -1,8 +1,147 @@
-(* C07 - first theorems; extended as Refine.v / Special.v / Stream.v / Life.v are delivered *)
+(* C07 - failure atomicity: the part the model can carry.
+   The model has no allocator, constructors or throwing user code, so the clauses "the k-th allocation
+   fails", "hash / equality / constructor throws" are decided by enumeration of fault positions on the
+   real library (harness/seq.cc --faults; see DESIGN 6.7) - NOT by these theorems.
+   Proved here: every exception the model can raise (the two policy exceptions) is raised before any
+   modification or leaves the contents and limits unchanged ([evolves t t']: good, equal contents, equal
+   limits) - for the insert family, rebuild, rehash and reserve; a failed rehash/reserve keeps the
+   hashpower (for non-destructive moves; the destructive case is the recorded finding).
+   Statements only; closed by [exact] of lemmas of Refine.v / Stats.v. *)
 From Coq Require Import NArith ZArith List.
-From LC Require Import gen.HashGen Core Api InvDefs Stats Resize.
+From LC Require Import gen.HashGen Core Api InvDefs ArrLemmas Stats InsertLemmas Resize Lazy Refine.
 Import ListNotations.
 Local Open Scope N_scope.
-Theorem C07_placeholder_set_nrem_zero_frees_old : forall t, set_nrem t 0 = set_old (set_nrem_raw t 0) (bdealloc (old t)).
-Proof. exact set_nrem_zero. Qed.
-Print Assumptions C07_placeholder_set_nrem_zero_frees_old.
+
+Theorem C07_doubling_fails_before_any_change :
+  forall (c : config) (hash : N -> N),
+  cfg_ok c ->
+  forall (mode : bool) (t : table),
+  nothrow c = true ->
+  good c hash t ->
+  immediate c mode t ->
+  let hp := bhp (cur t) in
+  (maxed t (hp + 1) -> cuckoo_fast_double c hash mode t hp = (t, inl EMaxHashpower)) /\
+  (~ maxed t (hp + 1) ->
+  lf_lt_mlf c t = true -> cuckoo_fast_double c hash mode t hp = (t, inl ELoadFactorTooLow)) /\
+  (~ maxed t (hp + 1) ->
+  lf_lt_mlf c t = false ->
+  exists t' : table,
+  cuckoo_fast_double c hash mode t hp = (t', inr St_ok) /\
+  (hp + 1 < 60 ->
+  good c hash t' /\
+  bhp (cur t') = hp + 1 /\
+  (forall (k : N) (v : Z), holds (cur t') k v <-> holds (cur t) k v) /\
+  lim_same t t' /\ immediate c mode t' /\ rc t' = wrap64 (rc t + 1) /\ nrem t' = 0)).
+Proof. exact cuckoo_fast_double_good. Qed.
+Print Assumptions C07_doubling_fails_before_any_change.
+
+Theorem C07_insert_family_exception_leaves_contents :
+  forall (c : config) (hash : N -> N),
+  cfg_ok c ->
+  forall (mode : bool) (t : table) (k : N) (v : Z) (g : Z -> bool -> option (Z * bool)),
+  nothrow c = true ->
+  good c hash t ->
+  immediate c mode t ->
+  forall (t' : table) (r : exn + bool * list rv * (N * N)),
+  uprase_gen c hash mode t k v g = (t', r) ->
+  (forall v0 : Z,
+  holds (cur t) k v0 ->
+  exists b s : N,
+  r = inr (false, log_of g v0 false, (b, s)) /\
+  good c hash t' /\
+  lim_same t t' /\
+  immediate c mode t' /\
+  bhp (cur t') = bhp (cur t) /\
+  upd_holds (cur t) (cur t') k (final_of g v0 false) /\
+  (forall vf : Z,
+  final_of g v0 false = Some vf ->
+  exists e : entry, bget (cur t') b s = Some e /\ ekey e = k /\ eval e = vf)) /\
+  (~ key_in (cur t) k ->
+  esc c hash t \/
+  (exists e : exn, r = inl e /\ exn_ok c true t t' e /\ evolves c hash t t' /\ immediate c mode t') \/
+  (exists b s : N,
+  r = inr (true, log_of g v true, (b, s)) /\
+  good c hash t' /\
+  lim_same t t' /\
+  immediate c mode t' /\
+  bhp (cur t) <= bhp (cur t') /\
+  upd_holds (cur t) (cur t') k (final_of g v true) /\
+  (forall vf : Z,
+  final_of g v true = Some vf ->
+  exists e : entry, bget (cur t') b s = Some e /\ ekey e = k /\ eval e = vf))).
+Proof. exact uprase_gen_good. Qed.
+Print Assumptions C07_insert_family_exception_leaves_contents.
+
+Theorem C07_failed_rebuild_leaves_contents :
+  forall (c : config) (hash : N -> N),
+  cfg_ok c ->
+  forall (auto mode : bool) (t : table) (new_hp : N),
+  good c hash t ->
+  limC c (mhp t) ->
+  let r := cuckoo_expand_simple c hash auto mode t new_hp in
+  (maxed t new_hp -> r = (t, inl EMaxHashpower)) /\
+  (~ maxed t new_hp -> auto = true -> lf_lt_mlf c t = true -> r = (t, inl ELoadFactorTooLow)) /\
+  es_post c hash auto t new_hp r.
+Proof. exact cuckoo_expand_simple_good. Qed.
+Print Assumptions C07_failed_rebuild_leaves_contents.
+
+Theorem C07_failed_rehash_keeps_hashpower :
+  forall (c : config) (hash : N -> N),
+  cfg_ok c ->
+  forall (mode : bool) (t : table) (n : N),
+  good c hash t ->
+  limC c (mhp t) ->
+  forall (t' : table) (r : exn + bool),
+  cuckoo_rehash c hash mode t n = (t', r) ->
+  (r = inr false <-> n = bhp (cur t)) /\
+  (r = inr false -> t' = t) /\
+  (r = inr true ->
+  good c hash t' /\
+  (forall (k : N) (v : Z), holds (cur t') k v <-> holds (cur t) k v) /\
+  lim_same t t' /\ n <= bhp (cur t') /\ rc t' = wrap64 (rc t + 1) /\ ~ maxed t n) /\
+  (forall e : exn,
+  r = inl e ->
+  n <> bhp (cur t) /\
+  exn_ok0 false t e /\
+  e <> ELoadFactorTooLow /\
+  (maxed t n -> t' = t /\ e = EMaxHashpower) /\
+  (destructive c = false -> evolves c hash t t' /\ bhp (cur t') = bhp (cur t))).
+Proof. exact cuckoo_rehash_good. Qed.
+Print Assumptions C07_failed_rehash_keeps_hashpower.
+
+Theorem C07_failed_reserve_keeps_hashpower :
+  forall (c : config) (hash : N -> N),
+  cfg_ok c ->
+  forall (mode : bool) (t : table) (n : N),
+  good c hash t ->
+  limC c (mhp t) ->
+  forall (t' : table) (r : exn + bool),
+  cuckoo_reserve c hash mode t n = (t', r) ->
+  let new_hp := reserve_calc c n in
+  (r = inr false <-> new_hp = bhp (cur t)) /\
+  (r = inr false -> t' = t) /\
+  (r = inr true ->
+  good c hash t' /\
+  (forall (k : N) (v : Z), holds (cur t') k v <-> holds (cur t) k v) /\
+  lim_same t t' /\
+  new_hp <= bhp (cur t') /\
+  rc t' = wrap64 (rc t + 1) /\
+  ~ maxed t new_hp /\ (n + spb c < 2 ^ 64 -> n <= 2 ^ bhp (cur t') * spb c)) /\
+  (forall e : exn,
+  r = inl e ->
+  new_hp <> bhp (cur t) /\
+  exn_ok0 false t e /\
+  e <> ELoadFactorTooLow /\
+  (maxed t new_hp -> t' = t /\ e = EMaxHashpower) /\
+  (destructive c = false -> evolves c hash t t' /\ bhp (cur t') = bhp (cur t))).
+Proof. exact cuckoo_reserve_good. Qed.
+Print Assumptions C07_failed_reserve_keeps_hashpower.
+
+Theorem C07_validity_checked_first :
+  forall (c : config) (auto : bool) (t : table) (o n : N),
+  check_resize_validity c auto t o n = inl (Some EMaxHashpower) \/
+  check_resize_validity c auto t o n = inl (Some ELoadFactorTooLow) \/
+  check_resize_validity c auto t o n = inr St_under_expansion \/
+  check_resize_validity c auto t o n = inr St_ok.
+Proof. exact crv_cases. Qed.
+Print Assumptions C07_validity_checked_first.
